@@ -44,9 +44,9 @@ CLAIMS = {
         note="Bounded (log <= 6 records). Log well-formedness is a precondition taken from the writer. SmallVec/Uuid are models; record decoding (bincode, seglog) is behind read_record's contract. NOT decided: concurrent readers while a transaction is being written (C18's flushed-offset contract), the stream filter afterwards."),
     "C09": dict(
         category="other", design_ref="§7 U16",
-        technique="Kani/CBMC on SubscriptionMatcher::{has_seen,update_state,update_from_sequences} extracted verbatim (model HashMap/HashSet): per-key delivery floor with whole-view frame",
-        text="Bounded stand-in (collections <= 2 entries; single-partition / single-stream matchers complete): has_seen(r) iff r does not match or lies below the floor of its key; update_state raises exactly that key's floor to pos+1 and leaves every other key's floor unchanged; hence a delivered event is never delivered again and no other stream/partition is re-delivered or skipped.",
-        note="PARTIAL: only the matcher's sequential algebra. NOT decided: history loops (async), history/live hand-over, broadcast lag, the acknowledgement window, confirmed-only delivery (watermark gating is C07). Known finding: Streams subscriptions started with AllStreams(v) forget v for the other streams."),
+        technique="Kani/CBMC on SubscriptionMatcher::{has_seen,update_state,update_from_sequences} extracted verbatim (model HashMap/HashSet): per-key delivery floor with whole-view frame; Kani/CBMC complete harness on Subscription::send_record extracted verbatim (async erased): the acknowledgement window (units/U25)",
+        text="Bounded stand-in (collections <= 2 entries; single-partition / single-stream matchers complete): has_seen(r) iff r does not match or lies below the floor of its key; update_state raises exactly that key's floor to pos+1 and leaves every other key's floor unchanged; hence a delivered event is never delivered again and no other stream/partition is re-delivered or skipped. send_record (complete: any cursor, window, acknowledgement history): a record is sent only when the records outstanding after the send fit the window, with consecutive cursors; nothing is sent once a channel is closed.",
+        note="PARTIAL: only the matcher's sequential algebra. NOT decided: history loops (async), history/live hand-over, broadcast lag and the race between the history replay and the broadcast receiver (a seeded change there, C09-n1, is NOT detected), confirmed-only delivery (watermark gating is C07). Known finding: Streams subscriptions started with AllStreams(v) forget v for the other streams."),
     "C16": dict(
         category="other", design_ref="§7 U12",
         technique="Kani/CBMC on bucket_id_to_thread_id extracted verbatim: total on listed buckets, thread id in range, deterministic (router and owner filter call the same function), balanced",
@@ -69,9 +69,9 @@ CLAIMS = {
         note="Bounded (pending versions <= 2; thorough adds a 3-delivery any-order history). Not decided: persistence/restart (async tokio fs, crash points of temp-file+rename) — only `a loaded watermark never decreases afterwards` follows from the per-call contract. Model BTreeMap assumed."),
     "C12": dict(
         category="other", design_ref="§7 U10",
-        technique="Verus unbounded proof (generic key / value) of whole-map contracts on OrderedQueue::{pop,progress_to,next} extracted verbatim + Kani/CBMC on OrderedQueue::{insert,pop,progress_to,next,new} against the model BTreeMap: per-call contracts with whole-map frames over arbitrary queue states (insert uses the Entry API, which Verus rejects)",
-        text="pop hands over exactly the write buffered at the next expected sequence and removes nothing else, progress_to only moves `next`, next() reads it: proved for every map and every key type obeying the order laws (Verus, unbounded). Bounded stand-in for insert (<= 3 buffered entries, keys / next full-range): stale / conflicting writes rejected without changing the buffer, duplicates merged once, eviction only of the largest key in favour of a smaller one and reported.",
-        note="Bounded (entries <= 3, limit <= 3). Not decided: liveness (`eventually answered`), actor mailbox schedules, the async replicate.rs callers. Known finding: progress_to leaves entries below next."),
+        technique="Verus unbounded proof (generic key / value) of whole-map contracts on OrderedQueue::{pop,progress_to,next} extracted verbatim + Kani/CBMC on OrderedQueue::{insert,pop,progress_to,next,new} against the model BTreeMap: per-call contracts with whole-map frames over arbitrary queue states (insert uses the Entry API, which Verus rejects); Kani/CBMC bounded harnesses on PartitionReplicatorActor::{detect_and_handle_gaps, pop_next_buffered_write} extracted verbatim over the real OrderedQueue (units/U26)",
+        text="pop hands over exactly the write buffered at the next expected sequence and removes nothing else, progress_to only moves `next`, next() reads it: proved for every map and every key type obeying the order laws (Verus, unbounded). Bounded stand-in for insert (<= 3 buffered entries, keys / next full-range): stale / conflicting writes rejected without changing the buffer, duplicates merged once, eviction only of the largest key in favour of a smaller one and reported. Replica side (bounded, <= 3 buffered writes): only the live write buffered AT the next expected sequence is handed over, an expired one is dropped and nothing else leaves the buffer; leading expired writes are garbage-collected; a gap below the oldest buffered write triggers a catch-up for exactly [next, oldest - 1], once, only while the breaker permits and none is in flight.",
+        note="Bounded (entries <= 3, limit <= 3). Not decided: liveness (`eventually answered`), actor mailbox schedules, buffer_write's reply routing and the async write / catch-up exchange in replicate.rs. Known finding: progress_to leaves entries below next."),
     "C13": dict(
         category="other", design_ref="§4 C13 / U08",
         technique="Kani/CBMC executing AppConfig::{assigned_buckets,assigned_partitions,node_count} and TopologyManager::calculate_assigned_partitions (both extracted verbatim, model HashSet) on concrete validated configurations, every node index; the topology side is proved for all sizes under C14",
